@@ -48,6 +48,41 @@ func main() {
 		fmt.Println(string(out), err)
 		return
 	}
+	if len(os.Args) >= 4 && os.Args[1] == "kindprobe" { // development aid: n scenarios of one kind
+		log.SetLevel(log.PanicLevel)
+		sum := vhlib.NewSummary("")
+		r := vhlib.NewRng(7)
+		n := 0
+		fmt.Sscanf(os.Args[3], "%d", &n)
+		for i := 0; i < n; i++ {
+			e := genE2E(r, os.Args[2])
+			o, errs := runWorker(fmt.Sprintf("/tmp/C12_kp_%d", i), e)
+			if errs != "" {
+				fmt.Println("worker:", errs)
+				continue
+			}
+			before := len(sum.OracleFailures)
+			oracle(e, o, sum)
+			cnt := func(n *GanttNode) int { return 0 }
+			_ = cnt
+			nodes := 0
+			for _, g := range o.Gantt {
+				if g.Tree != nil {
+					var w func(n *GanttNode)
+					w = func(n *GanttNode) { nodes++; for _, c := range n.Children { w(c) } }
+					w(g.Tree)
+				}
+			}
+			fmt.Println(i, "spans", len(e.Sc.Spans), "batches", len(e.Sc.Batches), "flushEach", e.Sc.FlushEach, "tree nodes", nodes, "new failures", len(sum.OracleFailures)-before)
+		}
+		for k, v := range sum.Distribution {
+			fmt.Println(k, v)
+		}
+		for _, f := range sum.OracleFailures {
+			fmt.Println(f.Class, "|", trunc(f.Detail, 200))
+		}
+		return
+	}
 	log.SetLevel(log.PanicLevel)
 	cfg := vhlib.ParseFlags()
 	sum := vhlib.NewSummary("distinct generated inputs (span maps, slices, OTLP spans, span forests) with more than one element")
